@@ -45,6 +45,7 @@ var deviations = []deviation{
 	{"deal-encrypts-empty-object", "state_dkg_deals_await_confirmations"},
 	{"deal-for-somebody-else", "state_dkg_deals_await_confirmations"},
 	{"deal-commitments-agree-only-at-the-addressee", "state_dkg_deals_await_confirmations"},
+	{"deal-is-the-self-confirmation-marker", "state_dkg_deals_await_confirmations"},
 	{"response-complaint", "state_dkg_responses_await_confirmations"},
 }
 
@@ -160,6 +161,10 @@ func (a *algRun) c11Scenario(outDir string, n, t, dealer, victim int, dev deviat
 					req.Deal = []byte{}
 				case "deal-shorter-than-a-point":
 					req.Deal = req.Deal[:16]
+				case "deal-is-the-self-confirmation-marker":
+					// the literal 12 bytes every participant sends to ITSELF in place of a deal, sent to somebody else as the
+					// dealer's deal: not a ciphertext at all (the marker is in-band: nothing ties it to its sender)
+					req.Deal = []byte("self-confirm")
 				case "deal-encrypts-empty-object":
 					// a well-formed ciphertext for the addressee whose plaintext is not a deal
 					if vk := c.nodes[victim].air.GetPubKey(); vk != nil {
